@@ -89,3 +89,247 @@ Qed.
 Lemma sends_hold_no_lock :
   forallb (fun o => sends_unlocked op [] (flat op (template o))) all_ops = true.
 Proof. vm_compute. reflexivity. Qed.
+
+(* ====================================================================== *)
+(* Lockset: statement at full strength, refutation, exact failing class     *)
+(* ====================================================================== *)
+From PV Require Import Model.LocksKnown.
+
+Definition all_fields : list field :=
+  [FHostTable; FMACTable; FSessClosed; FStats; FHeartBeat;
+   FHostLastSeen; FHostOnline; FHostDirty; FHostHuntStage; FHostNames; FHostManuf;
+   FMacLastSeen; FMacOnline; FMacCaptured; FMacIsRouter; FMacIPs; FMacIP4Offer; FMacHostList; FMacNames; FMacManuf;
+   FArpHuntList; FArpClosed; FI6HuntList; FI6Closed; FI6CloseChan; FI6Routers; FI6Router; FI6Repeat;
+   FDhcpTable; FDhcpClosed; FDhcpMode; FDnsTable; FDnsMdnsCache; FDnsClosed].
+Lemma all_fields_complete : forall f, In f all_fields.
+Proof. destruct f; cbv; tauto. Qed.
+
+(* does the pair have an unprotected conflicting pair of accesses on f *)
+Definition racyb (a b : op) (f : field) : bool :=
+  existsb (field_eqb f) (racy_fields op (template a) (template b)).
+
+(* full strength (what C09 asks of the discipline): no pair of operations allowed to overlap has an
+   unprotected conflicting pair of accesses *)
+Definition lockset_holds : Prop :=
+  forall a b f, concurrent_allowed a b = true -> racyb a b f = false.
+
+(* REFUTED on the faithful model: LastSeen written under the session READ lock, read by purge under the row lock *)
+Lemma lockset_refuted : exists a b f, concurrent_allowed a b = true /\ racyb a b f = true.
+Proof. exists ParseFast, Purge, FHostLastSeen. vm_compute. split; reflexivity. Qed.
+
+(* the same refutation as an execution: a reachable state in which Parse.fast is about to write and purge
+   about to read Host.LastSeen of the same row, holding no common lock *)
+Definition next_access (t : thread op) : option (loc * bool) :=
+  match rest op t with
+  | Rd _ x :: _ => Some (x, false)
+  | Wr _ x :: _ => Some (x, true)
+  | _ => None
+  end.
+Definition race_stateb (s : state op) (i j : nat) : bool :=
+  negb (Nat.eqb i j) &&
+  match nth_error (threads op s) i, nth_error (threads op s) j with
+  | Some ti, Some tj =>
+      match next_access ti, next_access tj with
+      | Some (x, w1), Some (y, w2) => loc_eqb x y && (w1 || w2)
+      | _, _ => false
+      end
+  | _, _ => false
+  end.
+Definition race_init := init op template [(ParseFast, [1]); (Purge, [1])].
+Definition race_witness := run op template race_init [0; 0; 0; 0; 0; 1; 1; 1; 1; 1].
+Lemma race_state_reachable :
+  reachable op template race_init race_witness /\ race_stateb race_witness 0 1 = true.
+Proof. split; [apply run_reachable; apply reach_refl | vm_compute; reflexivity]. Qed.
+
+(* PARTIAL = exact: for operations allowed to overlap, the unprotected conflicts of the model are exactly the
+   recorded keys; every other (pair, field) is protected by a common lock held exclusively by one side *)
+Definition check_fields (al : bool) (rf : list field) (a b : op) (fields : list field) : bool :=
+  forallb (fun f => Bool.eqb (al && existsb (field_eqb f) rf) (known_C09 (race_key a b f))) fields.
+(* (stated without a named constant: the kernel then never has to convert a closed [forallb] over the whole
+   table by its lazy machine; the computation is checked once, by the VM) *)
+Lemma lockset_exact_computed :
+  forallb (fun a => forallb (fun b =>
+     check_fields (concurrent_allowed a b) (racy_fields op (template a) (template b)) a b all_fields) all_ops) all_ops
+  = true.
+Proof. vm_compute. reflexivity. Qed.
+
+Lemma forallb_In : forall {A} (g : A -> bool) (l : list A), forallb g l = true -> forall x, In x l -> g x = true.
+Proof. intros A g l H x Hx. rewrite forallb_forall in H. exact (H x Hx). Qed.
+
+Lemma lockset_exact_spec : forall a b f,
+  Bool.eqb (concurrent_allowed a b && racyb a b f) (known_C09 (race_key a b f)) = true.
+Proof.
+  intros a b f.
+  exact (forallb_In _ _
+           (forallb_In _ _ (forallb_In _ _ lockset_exact_computed a (all_ops_complete a)) b (all_ops_complete b))
+           f (all_fields_complete f)).
+Qed.
+
+Lemma lockset_partial : forall a b f,
+  concurrent_allowed a b = true -> known_C09 (race_key a b f) = false -> racyb a b f = false.
+Proof.
+  intros a b f Hc Hk. pose proof (lockset_exact_spec a b f) as H. rewrite Hc, Hk in H.
+  destruct (racyb a b f); [discriminate H | reflexivity].
+Qed.
+
+Lemma lockset_known_are_real : forall a b f,
+  known_C09 (race_key a b f) = true -> concurrent_allowed a b = true /\ racyb a b f = true.
+Proof.
+  intros a b f Hk. pose proof (lockset_exact_spec a b f) as H. rewrite Hk in H.
+  destruct (concurrent_allowed a b), (racyb a b f); try discriminate H; auto.
+Qed.
+
+(* non-vacuity of the partial statement: a pair that conflicts and IS protected *)
+Example lockset_partial_nonvacuous :
+  concurrent_allowed Capture IsCaptured = true /\ known_C09 (race_key Capture IsCaptured FMacCaptured) = false /\
+  existsb (fun a => existsb (fun b => conflictb a b) (taccs op [] (flat op (template IsCaptured))))
+          (taccs op [] (flat op (template Capture))) = true.
+Proof. vm_compute. repeat split. Qed.
+
+(* ====================================================================== *)
+(* Channels                                                                 *)
+(* ====================================================================== *)
+Definition all_chans : list chan := [CNotify; CSessClose; CArpClose; CI6Close; CDhcpClose; CDnsClose].
+
+(* full strength: no operation sends on (or closes) a channel that an operation allowed to overlap closes *)
+Definition no_send_on_closed_holds : Prop :=
+  forall a b, concurrent_allowed a b = true ->
+    predicted_send_on_closed a b = false /\ predicted_double_close a b = false.
+
+(* REFUTED, as an execution of the model: Close closes the notification channel, Notify then sends on it *)
+Definition soc_init := init op template [(SessClose, [1]); (Notify, [1])].
+Definition soc_witness := run op template soc_init (repeat 0 6 ++ repeat 1 40).
+Lemma send_on_closed_refuted :
+  reachable op template soc_init soc_witness /\ panicked op soc_witness = true.
+Proof. split; [apply run_reachable; apply reach_refl | vm_compute; reflexivity]. Qed.
+
+(* two overlapping Close calls: both pass the `closed` test, the second close panics *)
+Definition dc_init := init op template [(SessClose, [1]); (SessClose, [1])].
+Definition dc_witness := run op template dc_init [0; 0; 1; 1; 0; 0; 0; 0; 1; 1; 1].
+Lemma double_close_refuted :
+  reachable op template dc_init dc_witness /\ panicked op dc_witness = true.
+Proof. split; [apply run_reachable; apply reach_refl | vm_compute; reflexivity]. Qed.
+
+(* PARTIAL = exact: the send/close and close/close overlaps of the table are exactly the recorded panic keys *)
+Lemma chan_exact_computed :
+  forallb (fun a => forallb (fun b =>
+     Bool.eqb (predicted_send_on_closed a b) (known_C09 ("panic:" ++ pair_name a b ++ ":send-on-closed-channel")) &&
+     Bool.eqb (predicted_double_close a b) (known_C09 ("panic:" ++ pair_name a b ++ ":close-of-closed-channel")) &&
+     Bool.eqb (predicted_nil_map a b) (known_C09 ("panic:" ++ pair_name a b ++ ":nil-map-write")))
+     all_ops) all_ops = true.
+Proof. vm_compute. reflexivity. Qed.
+
+Lemma no_send_on_closed_partial : forall a b,
+  known_C09 ("panic:" ++ pair_name a b ++ ":send-on-closed-channel") = false ->
+  known_C09 ("panic:" ++ pair_name a b ++ ":close-of-closed-channel") = false ->
+  predicted_send_on_closed a b = false /\ predicted_double_close a b = false.
+Proof.
+  intros a b H1 H2.
+  pose proof (forallb_In _ _ (forallb_In _ _ chan_exact_computed a (all_ops_complete a)) b (all_ops_complete b)) as H.
+  cbv beta in H. rewrite H1, H2 in H.
+  destruct (predicted_send_on_closed a b), (predicted_double_close a b); try discriminate; auto.
+Qed.
+
+(* the semantic core of the partial statement: a send can only panic on a channel somebody closed *)
+Lemma send_panics_only_if_closed : forall s i s',
+  step op template s i = Some s' -> panicked op s = false -> panicked op s' = true ->
+  exists t c r, nth_error (threads op s) i = Some t /\
+    (rest op t = Send op c :: r \/ rest op t = CloseCh op c :: r) /\ chan_closed op s c = true.
+Proof.
+  intros s i s' Hs Hp Hp'. unfold step in Hs. rewrite Hp in Hs.
+  destruct (nth_error (threads op s) i) as [t|] eqn:Hn; [|discriminate].
+  destruct (rest op t) as [|a r] eqn:Hr; [discriminate|].
+  destruct a; try (inversion Hs; subst; cbn in Hp'; congruence).
+  - destruct (can_acquire op (threads op s) i t l m); inversion Hs; subst; cbn in Hp'; congruence.
+  - destruct (chan_closed op s c) eqn:Hc.
+    + exists t, c, r. auto.
+    + inversion Hs; subst; cbn in Hp'; congruence.
+  - destruct (chan_closed op s c) eqn:Hc.
+    + exists t, c, r. auto.
+    + inversion Hs; subst; cbn in Hp'; congruence.
+  - destruct (chan_closed op s c); inversion Hs; subst; cbn in Hp'; congruence.
+  - destruct (flag_set op s x); inversion Hs; subst; cbn in Hp'; congruence.
+Qed.
+
+(* ====================================================================== *)
+(* Close stops the loops                                                    *)
+(* ====================================================================== *)
+
+(* one pass over a loop body in a state where the flags/channels are as given: does the iteration leave
+   the loop (exit taken, or body ends) before reaching the back edge? *)
+Fixpoint iter_exits (closed : chan -> bool) (flag : loc -> bool) (acts : list (action op)) : bool :=
+  match acts with
+  | [] => true
+  | ExitIfClosed _ c :: r => if closed c then true else iter_exits closed flag r
+  | ExitIfFlag _ x :: r => if flag x then true else iter_exits closed flag r
+  | Again _ :: _ => false
+  | _ :: r => iter_exits closed flag r
+  end.
+
+Definition is_loop (o : op) : bool := ends_in_again op (flat op (template o)).
+Definition loops : list op := filter is_loop all_ops.
+
+(* what the Close of the owning component establishes *)
+Definition stop_chan (o : op) : option chan :=
+  match o with MinuteLoop | NicMonitor => Some CSessClose | _ => None end.
+Definition stop_flag (o : op) : option field :=
+  match o with ArpSpoofLoop => Some FArpClosed | I6SpoofLoop => Some FI6Closed | _ => None end.
+Definition closer (o : op) : op :=
+  match o with ArpSpoofLoop => ArpClose | I6SpoofLoop => I6Close | _ => SessClose end.
+
+Lemma loops_listed : loops = [MinuteLoop; NicMonitor; ArpSpoofLoop; I6SpoofLoop].
+Proof. vm_compute. reflexivity. Qed.
+
+(* every loop of the table leaves at its next pass once its component's Close has closed the channel /
+   set the flag it tests — in any state, on any row *)
+Lemma close_stops_loops : forall o rows closed flag,
+  is_loop o = true ->
+  (forall c, stop_chan o = Some c -> closed c = true) ->
+  (forall f, stop_flag o = Some f -> flag (f, 0) = true) ->
+  iter_exits closed flag (body op template o rows) = true.
+Proof.
+  intros o rows closed flag Hl Hc Hf.
+  assert (In o loops) as Hin by (apply filter_In; split; [apply all_ops_complete | exact Hl]).
+  rewrite loops_listed in Hin.
+  destruct Hin as [<-|[<-|[<-|[<-|[]]]]].
+  - pose proof (Hc CSessClose eq_refl) as E. vm_compute. rewrite E. reflexivity.
+  - pose proof (Hc CSessClose eq_refl) as E. vm_compute. rewrite E. reflexivity.
+  - pose proof (Hf FArpClosed eq_refl) as E. vm_compute. vm_compute in E. rewrite E. reflexivity.
+  - pose proof (Hf FI6Closed eq_refl) as E. vm_compute. vm_compute in E. rewrite E. reflexivity.
+Qed.
+
+(* ... and the Close of the component does establish it (its template closes that channel / sets that flag) *)
+Lemma closers_establish :
+  forallb (fun o =>
+    match stop_chan o with Some c => closes op (template (closer o)) c | None => true end &&
+    match stop_flag o with
+    | Some f => existsb (fun a => match a with TSetFlag f' => field_eqb f f' | _ => false end) (flat op (template (closer o)))
+    | None => true
+    end) loops = true.
+Proof. vm_compute. reflexivity. Qed.
+
+(* without Close the loops do go round: the statement above is not vacuous *)
+Example loop_continues_when_open :
+  iter_exits (fun _ => false) (fun _ => false) (body op template ArpSpoofLoop [1]) = false.
+Proof. vm_compute. reflexivity. Qed.
+
+(* ====================================================================== *)
+(* Table mutations are serialised                                           *)
+(* ====================================================================== *)
+Definition structure_field (f : field) : bool :=
+  field_eqb f FHostTable || field_eqb f FMACTable || field_eqb f FMacHostList.
+
+(* every write to the host map, the MAC slice or a HostList, in every operation, happens while the session
+   lock is held exclusively: table mutations are totally ordered critical sections, so the C05 invariants,
+   which every such section re-establishes, hold whenever no mutation is in progress *)
+Lemma mutations_serialised :
+  forallb (fun o => forallb (fun a =>
+     match a with (f, w, h) =>
+       if w && structure_field f then existsb (fun x => lockc_eqb (fst x) LSess && is_W (snd x)) h else true
+     end) (taccs op [] (flat op (template o)))) all_ops = true.
+Proof. vm_compute. reflexivity. Qed.
+
+Example mutations_exist :
+  existsb (fun a => match a with (f, w, _) => w && structure_field f end)
+          (taccs op [] (flat op (template Purge))) = true.
+Proof. vm_compute. reflexivity. Qed.
